@@ -1,6 +1,6 @@
 (* Properties/C06.v — After faults stop, sharding recovers: nothing stuck, nothing unscraped. *)
 From KV Require Import Base.Util Base.AMap Base.Sched Gen.Consts Model.Coordinator Model.CoordCheck Model.Sidecar Model.World
-                       Proofs.CoordBasics Proofs.SidecarProofs Proofs.WorldProofs Proofs.WorldNoGap.
+                       Proofs.CoordBasics Proofs.SidecarProofs Proofs.WorldProofs Proofs.WorldNoGap Proofs.CoordHandover.
 Local Open Scope list_scope.
 Local Open Scope Z_scope.
 
@@ -90,3 +90,20 @@ Theorem C06_no_target_lost_by_faults : forall o tru h, min_shard o <= max_shard 
   held w h -> held (fold_left (hist_step o tru) steps w) h.
 Proof. exact history_no_gap. Qed.
 Print Assumptions C06_no_target_lost_by_faults.
+
+(* "none stays duplicated for ever", as one statement about the whole garbage-collection walk: of two normal copies that
+   were both scraped three times exactly the copy on the less loaded shard (with equal loads: on the front shard) is
+   left after this cycle's walk, in whatever order the shards are visited; C05_handover_completes is the same for a
+   pending hand-over, C06_no_target_in_transfer_for_ever for a transfer without partner *)
+Theorem C06_duplicate_resolved_in_one_cycle : forall o active kw kl h cw cl p,
+  kw <> kl -> is_active active h = true ->
+  c_state cw = Normal /\ (min_wait <= c_times cw)%N -> c_state cl = Normal /\ (min_wait <= c_times cl)%N ->
+  nodup_plan p ->
+  si_ok (nth_si p kw) = true -> si_ok (nth_si p kl) = true ->
+  afind h (scr_of (nth_si p kw)) = Some cw -> afind h (scr_of (nth_si p kl)) = Some cl ->
+  (forall j, j <> kw -> j <> kl -> afind h (scr_of (nth_si p j)) = None) ->
+  (load_of o (nth_si p kw) < load_of o (nth_si p kl) \/
+   (load_of o (nth_si p kw) = load_of o (nth_si p kl) /\ (kw < kl)%nat)) ->
+  afind h (scr_of (nth_si (gc o active p) kw)) = Some cw /\ afind h (scr_of (nth_si (gc o active p) kl)) = None.
+Proof. exact gc_resolves_duplicate. Qed.
+Print Assumptions C06_duplicate_resolved_in_one_cycle.
